@@ -13,6 +13,7 @@
 import PyshaclProofs.InvarianceProofs
 import PyshaclProofs.CoreInvariance
 import PyshaclProofs.FocusSet
+import PyshaclProofs.EvalTransfer
 namespace Pyshacl.C09
 open Pyshacl
 
@@ -23,6 +24,15 @@ theorem value_nodes_order_invariant_partial (p : Path) (g g' : Graph) (h : SameT
 theorem focus_nodes_order_invariant_partial (sg sg' dg dg' : Graph) (hs : SameTriples sg sg') (hd : SameTriples dg dg')
     (node n : Term) : n ∈ focusNodes sg dg node ↔ n ∈ focusNodes sg' dg' node :=
   Pyshacl.focus_nodes_order_invariant sg sg' dg dg' hs hd node n
+
+/-- the raising evaluator itself (depth cap, ill-formed paths, loops): whether it returns does not depend on the
+    insertion order or multiplicity of the graph's triples either, and what it returns has the same members -/
+theorem value_nodes_outcome_order_invariant (cap : Nat) (p : Path) (g g' : Graph) (h : SameTriples g g')
+    (inverse : Bool) (r : Nat) (f : Term) (vs : List Term) (hok : Path.eval cap p inverse r g f = .ok vs) :
+    ∃ vs', Path.eval cap p inverse r g' f = .ok vs' ∧ ∀ x, x ∈ vs ↔ x ∈ vs' := by
+  refine ⟨_, eval_transfer cap p g g' h inverse r f vs hok, fun x => ?_⟩
+  rw [eval_ok_exact cap p g inverse r f vs hok]
+  exact Pyshacl.value_nodes_order_invariant p g g' h inverse f x
 
 theorem picks_irrelevant {α} [DecidableEq α] (l l' : List α) (hsame : ∀ x, x ∈ l ↔ x ∈ l')
     (hone : ∀ x ∈ l, ∀ y ∈ l, x = y) : (dedup l).head? = (dedup l').head? :=
